@@ -74,6 +74,10 @@ def check_case(case) -> Outcome:
     shape, output, efr = case["shape"], case["output"], case["efr"]
     df = F.build(fr)
     n = fr["n"]
+    if len(set(fr["cols"]["z"]["values"])) < 2 and any(f.get("fn") == "scale" for p in parts for t in p["terms"] for f in t):
+        # scale() of a constant column is 0/0 = NaN in every row: every row is (correctly) missing; nothing to align
+        out.rejected = True
+        return out
     strs = [part_string(p, lhs=(shape in ("twosided", "both") and i == 0)) for i, p in enumerate(parts)]
     if shape == "twosided":
         f = Formula(f"{strs[0]} ~ {strs[1]}")
